@@ -374,3 +374,189 @@ impl<'a, T: Copy> RwsCopied<T> for Option<&'a T> {
     #[verifier::external_body]
     fn rws_copied(self) -> Option<T> { self.copied() }
 }
+
+// ---------- split / trim / parse / prefix tests ----------
+pub uninterp spec fn split_spec(s: Seq<char>, sep: Seq<char>) -> Seq<Seq<char>>;
+
+// assumed facts about str::split(sep) for a non-empty separator (conformance-tested in the thorough tier)
+#[verifier::external_body]
+pub proof fn axiom_split(s: Seq<char>, sep: Seq<char>)
+    requires sep.len() > 0,
+    ensures
+        split_spec(s, sep).len() >= 1,
+        join_spec(split_spec(s, sep), sep) == s,
+        forall|i: int| 0 <= i < split_spec(s, sep).len() ==> !has_sub(#[trigger] split_spec(s, sep)[i], sep),
+{
+}
+
+pub open spec fn has_sub(s: Seq<char>, p: Seq<char>) -> bool {
+    exists|k: int| 0 <= k && k + p.len() <= s.len() && #[trigger] s.subrange(k, k + p.len()) == p
+}
+
+pub open spec fn has_prefix(s: Seq<char>, p: Seq<char>) -> bool {
+    p.len() <= s.len() && s.subrange(0, p.len() as int) == p
+}
+
+pub open spec fn has_suffix(s: Seq<char>, p: Seq<char>) -> bool {
+    p.len() <= s.len() && s.subrange(s.len() - p.len(), s.len() as int) == p
+}
+
+pub uninterp spec fn trim_spec(s: Seq<char>) -> Seq<char>;
+pub uninterp spec fn is_ws(c: char) -> bool;  // char::is_whitespace (Unicode White_Space)
+
+#[verifier::external_body]
+pub proof fn axiom_trim(s: Seq<char>)
+    ensures
+        exists|a: int, b: int| 0 <= a <= b <= s.len() && trim_spec(s) == s.subrange(a, b)
+            && (forall|i: int| 0 <= i < a ==> is_ws(#[trigger] s[i])) && (forall|i: int| b <= i < s.len() ==> is_ws(#[trigger] s[i])),
+        trim_spec(s).len() > 0 ==> !is_ws(trim_spec(s)[0]) && !is_ws(trim_spec(s).last()),
+        is_ws(' ') && is_ws('\n') && is_ws('\r') && is_ws('\t'),
+        forall|c: char| ('0' <= c && c <= '9') ==> !is_ws(c),
+{
+}
+
+pub trait RwsStr2 {
+    spec fn sv2(&self) -> Seq<char>;
+    fn rws_trim<'a>(&'a self) -> (r: &'a str)
+        ensures r@ == trim_spec(self.sv2());
+    fn rws_split_collect<'a>(&'a self, sep: &str) -> (r: Vec<&'a str>)
+        ensures sviews(r@) == split_spec(self.sv2(), sep@), r@.len() == split_spec(self.sv2(), sep@).len();
+    fn rws_starts_with(&self, p: &str) -> (r: bool)
+        ensures r == has_prefix(self.sv2(), p@);
+    fn rws_ends_with(&self, p: &str) -> (r: bool)
+        ensures r == has_suffix(self.sv2(), p@);
+    fn rws_as_str<'a>(&'a self) -> (r: &'a str)
+        ensures r@ == self.sv2();
+    fn rws_split_once<'a>(&'a self, sep: &str) -> (r: Option<(&'a str, &'a str)>)
+        ensures
+            r.is_none() <==> !has_sub(self.sv2(), sep@),
+            r.is_some() ==> self.sv2() == r.unwrap().0@ + sep@ + r.unwrap().1@ && !has_sub(r.unwrap().0@, sep@);
+    fn rws_to_lowercase(&self) -> (r: String)
+        ensures r@ == lower_spec(self.sv2());
+    fn rws_to_uppercase(&self) -> (r: String)
+        ensures r@ == upper_spec(self.sv2());
+}
+pub uninterp spec fn lower_spec(s: Seq<char>) -> Seq<char>;
+pub uninterp spec fn upper_spec(s: Seq<char>) -> Seq<char>;
+
+impl RwsStr2 for str {
+    open spec fn sv2(&self) -> Seq<char> { self@ }
+    #[verifier::external_body]
+    fn rws_trim<'a>(&'a self) -> &'a str { self.trim() }
+    #[verifier::external_body]
+    fn rws_split_collect<'a>(&'a self, sep: &str) -> Vec<&'a str> { self.split(sep).collect() }
+    #[verifier::external_body]
+    fn rws_starts_with(&self, p: &str) -> bool { self.starts_with(p) }
+    #[verifier::external_body]
+    fn rws_ends_with(&self, p: &str) -> bool { self.ends_with(p) }
+    #[verifier::external_body]
+    fn rws_as_str<'a>(&'a self) -> &'a str { self }
+    #[verifier::external_body]
+    fn rws_split_once<'a>(&'a self, sep: &str) -> Option<(&'a str, &'a str)> { self.split_once(sep) }
+    #[verifier::external_body]
+    fn rws_to_lowercase(&self) -> String { self.to_lowercase() }
+    #[verifier::external_body]
+    fn rws_to_uppercase(&self) -> String { self.to_uppercase() }
+}
+impl RwsStr2 for String {
+    open spec fn sv2(&self) -> Seq<char> { self@ }
+    #[verifier::external_body]
+    fn rws_trim<'a>(&'a self) -> &'a str { self.trim() }
+    #[verifier::external_body]
+    fn rws_split_collect<'a>(&'a self, sep: &str) -> Vec<&'a str> { self.split(sep).collect() }
+    #[verifier::external_body]
+    fn rws_starts_with(&self, p: &str) -> bool { self.starts_with(p) }
+    #[verifier::external_body]
+    fn rws_ends_with(&self, p: &str) -> bool { self.ends_with(p) }
+    #[verifier::external_body]
+    fn rws_as_str<'a>(&'a self) -> &'a str { self.as_str() }
+    #[verifier::external_body]
+    fn rws_split_once<'a>(&'a self, sep: &str) -> Option<(&'a str, &'a str)> { self.split_once(sep) }
+    #[verifier::external_body]
+    fn rws_to_lowercase(&self) -> String { self.to_lowercase() }
+    #[verifier::external_body]
+    fn rws_to_uppercase(&self) -> String { self.to_uppercase() }
+}
+
+// str::parse::<T>()
+pub open spec fn is_digit(c: char) -> bool { '0' <= c && c <= '9' }
+pub open spec fn all_digits(s: Seq<char>) -> bool { forall|i: int| 0 <= i < s.len() ==> is_digit(#[trigger] s[i]) }
+pub open spec fn dec_val(s: Seq<char>) -> nat
+    decreases s.len()
+{
+    if s.len() == 0 { 0 } else { (dec_val(s.drop_last()) * 10 + ((s.last() as nat) - ('0' as nat))) as nat }
+}
+// <uN as FromStr>: optional '+', then at least one ASCII digit, value must fit
+pub open spec fn unsigned_digits(s: Seq<char>) -> Seq<char> { if s.len() > 0 && s[0] == '+' { s.subrange(1, s.len() as int) } else { s } }
+pub open spec fn parses_unsigned(s: Seq<char>, max: nat) -> bool {
+    unsigned_digits(s).len() > 0 && all_digits(unsigned_digits(s)) && dec_val(unsigned_digits(s)) <= max
+}
+// <iN as FromStr>: optional sign, then at least one digit, value must fit
+pub open spec fn signed_digits(s: Seq<char>) -> Seq<char> { if s.len() > 0 && (s[0] == '+' || s[0] == '-') { s.subrange(1, s.len() as int) } else { s } }
+pub open spec fn signed_val(s: Seq<char>) -> int { if s.len() > 0 && s[0] == '-' { -(dec_val(signed_digits(s)) as int) } else { dec_val(signed_digits(s)) as int } }
+pub open spec fn parses_signed(s: Seq<char>, min: int, max: int) -> bool {
+    signed_digits(s).len() > 0 && all_digits(signed_digits(s)) && min <= signed_val(s) <= max
+}
+
+#[verifier::external_type_specification]
+#[verifier::external_body]
+pub struct ExParseIntError(core::num::ParseIntError);
+#[verifier::external_type_specification]
+#[verifier::external_body]
+pub struct ExParseBoolError(core::str::ParseBoolError);
+
+pub trait RwsFromStr: Sized {
+    type E: std::fmt::Debug;
+    spec fn parses(s: Seq<char>) -> bool;
+    spec fn val(s: Seq<char>) -> Self;
+    fn rws_from_str(s: &str) -> (r: Result<Self, Self::E>)
+        ensures r.is_ok() <==> Self::parses(s@), r.is_ok() ==> r.unwrap() == Self::val(s@);
+}
+impl RwsFromStr for u64 {
+    type E = core::num::ParseIntError;
+    open spec fn parses(s: Seq<char>) -> bool { parses_unsigned(s, u64::MAX as nat) }
+    open spec fn val(s: Seq<char>) -> u64 { dec_val(unsigned_digits(s)) as u64 }
+    #[verifier::external_body]
+    fn rws_from_str(s: &str) -> Result<u64, core::num::ParseIntError> { s.parse::<u64>() }
+}
+impl RwsFromStr for usize {
+    type E = core::num::ParseIntError;
+    open spec fn parses(s: Seq<char>) -> bool { parses_unsigned(s, usize::MAX as nat) }
+    open spec fn val(s: Seq<char>) -> usize { dec_val(unsigned_digits(s)) as usize }
+    #[verifier::external_body]
+    fn rws_from_str(s: &str) -> Result<usize, core::num::ParseIntError> { s.parse::<usize>() }
+}
+impl RwsFromStr for i64 {
+    type E = core::num::ParseIntError;
+    open spec fn parses(s: Seq<char>) -> bool { parses_signed(s, i64::MIN as int, i64::MAX as int) }
+    open spec fn val(s: Seq<char>) -> i64 { signed_val(s) as i64 }
+    #[verifier::external_body]
+    fn rws_from_str(s: &str) -> Result<i64, core::num::ParseIntError> { s.parse::<i64>() }
+}
+impl RwsFromStr for i16 {
+    type E = core::num::ParseIntError;
+    open spec fn parses(s: Seq<char>) -> bool { parses_signed(s, i16::MIN as int, i16::MAX as int) }
+    open spec fn val(s: Seq<char>) -> i16 { signed_val(s) as i16 }
+    #[verifier::external_body]
+    fn rws_from_str(s: &str) -> Result<i16, core::num::ParseIntError> { s.parse::<i16>() }
+}
+impl RwsFromStr for bool {
+    type E = core::str::ParseBoolError;
+    open spec fn parses(s: Seq<char>) -> bool { s == seq!['t', 'r', 'u', 'e'] || s == seq!['f', 'a', 'l', 's', 'e'] }
+    open spec fn val(s: Seq<char>) -> bool { s == seq!['t', 'r', 'u', 'e'] }
+    #[verifier::external_body]
+    fn rws_from_str(s: &str) -> Result<bool, core::str::ParseBoolError> { s.parse::<bool>() }
+}
+pub trait RwsParse {
+    spec fn sv3(&self) -> Seq<char>;
+    fn rws_parse<F: RwsFromStr>(&self) -> (r: Result<F, F::E>)
+        ensures r.is_ok() <==> F::parses(self.sv3()), r.is_ok() ==> r.unwrap() == F::val(self.sv3());
+}
+impl RwsParse for str {
+    open spec fn sv3(&self) -> Seq<char> { self@ }
+    fn rws_parse<F: RwsFromStr>(&self) -> (r: Result<F, F::E>) { F::rws_from_str(self) }
+}
+impl RwsParse for String {
+    open spec fn sv3(&self) -> Seq<char> { self@ }
+    fn rws_parse<F: RwsFromStr>(&self) -> (r: Result<F, F::E>) { F::rws_from_str(self.as_str()) }
+}
